@@ -64,6 +64,14 @@ CHECKS.update({
          "At every state of the search the real PrepareProposal output (mempool classes incl. 20 valid txs, stale and foreign-signer txs) must be accepted by an independent replica, stay within 16 txs and execute its block message successfully; every single mutation of a well-formed proposal from a 26-entry menu must be rejected and must not move the head when finalised anyway.",
          KA_NOTE + " Two validators; clocks of validators are not behind the proposer's.", "DESIGN.md section 4 C08"),
 })
+CHECKS.update({
+ "C10": ("inputmc", "exhaustive product of (registered message type, signer class, memo, timeout height, signature class, execution mode, election state) plus compositions, delivered to the real application and compared with an admission predicate; differential state check for foreign messages",
+         "Every sdk.Msg implementation registered in the interface registry (discovered at run time) is delivered in every mode (CheckTx, ReCheck, PrepareProposal via mempool, ProcessProposal, FinalizeBlock) for every signer/memo/timeout/signature class before and after a relayer election; admission must equal the predicate written from the statement and foreign messages must leave all stores equal to the same block without them.",
+         KA_NOTE + " CheckTx is exercised on an App that has committed a block.", "DESIGN.md section 4 C10"),
+ "C18": ("chainmc", "depth-bounded tree search over block histories; in every visited state the real export is imported into a fresh App and compared (re-export, store dumps, invariants, first block)",
+         "Every state reached by histories up to the depth bound over a 20-entry menu (validators in all statuses incl. zero-power, pending/boarding voters, in-flight withdrawals, queues, parameter corners) is exported with ExportAppStateAndValidators, imported with InitChain on a fresh App and compared: validators, per-module re-export, full store dumps (boarding queue as multiset), invariants, and the imported chain must produce a block.",
+         KA_NOTE, "DESIGN.md section 4 C18"),
+})
 PENDING = {}
 
 def main():
